@@ -260,3 +260,19 @@ Proof.
     as (st' & R & _ & RT & S & RX).
   exists st0, st'. repeat split; auto. now destruct (holds_root_tree _ _ H0).
 Qed.
+
+(* the same from Relations::new() *)
+Theorem history_from_new ops :
+  forallb aop_plain ops = true -> hist_in_range [] ops = true ->
+  let f' := fold_left astep ops [] in
+  exists st0 st', init_state fixed INew = Ok st0 /\
+                  run_ops fixed (compile_all ops) st0 = Ok st' /\
+                  root_tree st' = Ok (cfield_tree f') /\
+                  structure (cfield_tree f') = Ok f' /\
+                  root_text st' = Ok (render_field f').
+Proof.
+  intros Hc Hr f'. destruct init_new as (st0 & I0 & H0).
+  destruct (history_constructed ops [] st0 eq_refl Hc Hr (proj1 (holds_state_with_root _ _) H0))
+    as (st' & R & _ & RT & S & RX).
+  exists st0, st'. repeat split; auto.
+Qed.
